@@ -1,9 +1,11 @@
 (* Properties/C18.v - Response classification, result binding and the error contract.
-   Only statements, `exact`, and Print Assumptions.  Model: Model/Pipeline.v. *)
+   Only statements, `exact`, and Print Assumptions.  Model: Model/Pipeline.v (control flow of
+   Request.Send/Do/do, Client.roundTrip, parseResponseBody, Response.ResultState/ToBytes, digest
+   re-send; every user-supplied stage is an oracle value of the program). *)
 From ReqV Require Import Lib.Bytes Model.Pipeline Proofs.PipelineProofs.
 Open Scope Z_scope.
 
-(* every status code - indeed every integer - falls in exactly one state, with the documented ranges *)
+(* ---- classification: every status code - indeed every integer - falls in exactly one state ---- *)
 Theorem C18_classify_total : forall code : Z,
   (200 <= code <= 299 /\ default_result_state code = SuccessState) \/
   (400 <= code /\ default_result_state code = ErrorState) \/
@@ -17,3 +19,283 @@ Theorem C18_classify_ranges : forall code,
   (default_result_state code = UnknownState <-> (code < 200 \/ 300 <= code <= 399)).
 Proof. exact classify_ranges. Qed.
 Print Assumptions C18_classify_ranges.
+
+(* ---- result binding (one parseResponseBody step, any response, any oracles) ---- *)
+Theorem C18_success_result_iff : forall tg b r,
+  r_result r = false ->
+  (r_result (fst (parse_response_body tg b r)) = true <->
+   t_result tg = true /\ r_present r = true /\ result_state r = SuccessState /\
+   r_status r <> no_content /\ body_ok b r /\ b_um_res b = None).
+Proof. exact success_result_iff. Qed.
+Print Assumptions C18_success_result_iff.
+
+(* the request-level target shadows the client-level common error type *)
+Theorem C18_error_result_iff : forall tg b r,
+  r_error r = ENone ->
+  let r' := fst (parse_response_body tg b r) in
+  (r_error r' = EReq <->
+     t_error tg = true /\ r_present r = true /\ result_state r = ErrorState /\
+     r_status r <> no_content /\ body_ok b r /\ b_um_req b = None) /\
+  (r_error r' = ECommon <->
+     t_error tg = false /\ t_common tg = true /\ r_present r = true /\ result_state r = ErrorState /\
+     r_status r <> no_content /\ body_ok b r /\ b_um_com b = None).
+Proof. exact error_result_iff. Qed.
+Print Assumptions C18_error_result_iff.
+
+Theorem C18_never_both : forall tg b r,
+  r_result r = false -> r_error r = ENone ->
+  let r' := fst (parse_response_body tg b r) in
+  ~ (r_result r' = true /\ r_error r' <> ENone).
+Proof. exact never_both. Qed.
+Print Assumptions C18_never_both.
+
+Theorem C18_unmarshal_failure_surfaces : forall tg b r w x,
+  applicable tg r = Some w -> body_ok b r -> um_of b w = Some x ->
+  snd (parse_response_body tg b r) = Some x /\
+  r_result (fst (parse_response_body tg b r)) = r_result r /\
+  r_error (fst (parse_response_body tg b r)) = r_error r.
+Proof. exact unmarshal_failure_surfaces. Qed.
+Print Assumptions C18_unmarshal_failure_surfaces.
+
+Theorem C18_read_failure_surfaces : forall tg b r w,
+  applicable tg r = Some w -> ~ body_ok b r ->
+  snd (parse_response_body tg b r) <> None /\
+  r_result (fst (parse_response_body tg b r)) = r_result r /\
+  r_error (fst (parse_response_body tg b r)) = r_error r.
+Proof. exact read_failure_surfaces. Qed.
+Print Assumptions C18_read_failure_surfaces.
+
+(* ... and through Client.roundTrip and a whole call: the caller's response carries exactly the
+   bindings of one step on the auto-read transport answer (so the biconditionals above apply to it) *)
+Theorem C18_round_trip_binding : forall fl cfg a r e l s chk b,
+  round_trip fl cfg a = (Some r, e, l) -> Forall is_user (a_cli a) ->
+  a_getbody a = None -> a_transport a = TResp s chk b ->
+  let r3 := auto_read (c_autoread cfg) autoread_status_ok b (mkResp true s chk None false false ENone) in
+  r_result r3 = false /\ r_error r3 = ENone /\ r_present r3 = true /\ r_status r3 = s /\ r_chk r3 = chk /\
+  r_result r = r_result (fst (parse_response_body (c_targets cfg) b r3)) /\
+  r_error r = r_error (fst (parse_response_body (c_targets cfg) b r3)) /\
+  r_present r = true /\ r_status r = s.
+Proof. exact round_trip_binding. Qed.
+Print Assumptions C18_round_trip_binding.
+
+Theorem C18_round_trip_no_binding : forall fl cfg a r e l,
+  round_trip fl cfg a = (Some r, e, l) -> Forall is_user (a_cli a) ->
+  (a_getbody a <> None \/ exists x, a_transport a = TFail x) ->
+  r_result r = false /\ r_error r = ENone /\ r_present r = false /\ r_err r <> None.
+Proof. exact round_trip_no_binding. Qed.
+Print Assumptions C18_round_trip_no_binding.
+
+Theorem C18_call_binding_passthrough : forall fl cfg a rest n prev r0 e0 l0,
+  c_retry cfg = None ->
+  fst (run_before (a_ud a) 0) = None -> a_bi a = None ->
+  Forall (fun w => w = WPass) (a_wraps a) -> Forall is_user (a_req a) ->
+  round_trip fl cfg a = (Some r0, e0, l0) ->
+  exists r e ls, do_loop fl cfg (a :: rest) n prev = DoRet (Some r) e ls /\
+    r_result r = r_result r0 /\ r_error r = r_error r0 /\ r_present r = r_present r0 /\ r_status r = r_status r0.
+Proof. exact call_binding_passthrough. Qed.
+Print Assumptions C18_call_binding_passthrough.
+
+(* ---- a call always returns a non-nil response whose recorded error equals the returned error ---- *)
+Theorem C18_resp_never_nil : forall fl p ro e ls h, run fl p = Returned ro e ls h -> ro <> None.
+Proof. exact resp_never_nil. Qed.
+Print Assumptions C18_resp_never_nil.
+
+Theorem C18_err_equals_resp_err : forall fl p ro e ls h,
+  run fl p = Returned ro e ls h -> p_entry p <> EDo -> e = resp_err ro.
+Proof. exact err_equals_resp_err. Qed.
+Print Assumptions C18_err_equals_resp_err.
+
+Theorem C18_must_panics_with_resp_err : forall fl p,
+  p_entry p = EMust ->
+  match run fl p with
+  | Panicked x ls h => exists ro e0, do_call fl (p_cfg p) (p_attempts p) = DoRet ro e0 ls /\ resp_err ro = Some x
+  | Returned ro e ls h => e = None /\ resp_err ro = None
+  | OutOfFuel => do_call fl (p_cfg p) (p_attempts p) = DoOutOfFuel
+  end.
+Proof. exact must_panics_with_resp_err. Qed.
+Print Assumptions C18_must_panics_with_resp_err.
+
+(* at the Do exit: an error returned by do() is recorded in the response *)
+Theorem C18_do_err_recorded : forall fl cfg atts n prev ro x ls,
+  do_loop fl cfg atts n prev = DoRet ro (Some x) ls -> resp_err ro <> None.
+Proof. exact do_err_recorded. Qed.
+Print Assumptions C18_do_err_recorded.
+
+Theorem C18_round_trip_err_eq : forall fl cfg a ro e l, round_trip fl cfg a = (ro, e, l) ->
+  exists r, ro = Some r /\ e = r_err r.
+Proof. exact round_trip_err_eq. Qed.
+Print Assumptions C18_round_trip_err_eq.
+
+(* fuel: the distinguished out-of-fuel result does not occur when there are enough attempt scripts *)
+Theorem C18_fuel_suffices : forall fl cfg atts n prev mx conds,
+  c_retry cfg = Some (mx, conds) -> 0 <= mx -> 0 <= n -> (Z.to_nat (mx - n) < length atts)%nat ->
+  do_loop fl cfg atts n prev <> DoOutOfFuel.
+Proof. exact fuel_suffices. Qed.
+Print Assumptions C18_fuel_suffices.
+
+Theorem C18_fuel_suffices_no_retry : forall fl cfg a rest n prev,
+  c_retry cfg = None -> do_loop fl cfg (a :: rest) n prev <> DoOutOfFuel.
+Proof. exact fuel_suffices_no_retry. Qed.
+Print Assumptions C18_fuel_suffices_no_retry.
+
+(* ---- middleware order and multiplicity, for every iteration of do() ---- *)
+(* the logs of a call are, one by one, the logs of the iterations that ran ... *)
+Theorem C18_logs_are_attempt_logs : forall fl cfg atts n prev ro e ls,
+  do_loop fl cfg atts n prev = DoRet ro e ls ->
+  (1 <= length ls <= length atts)%nat /\
+  forall k l, nth_error ls k = Some l ->
+    exists a prev', nth_error atts k = Some a /\ snd (do_attempt fl cfg a (n + Z.of_nat k) prev') = l.
+Proof. exact do_loop_logs. Qed.
+Print Assumptions C18_logs_are_attempt_logs.
+
+(* ... and in every iteration: request middleware first, in registration order, stopping at the
+   first failure; anything else (wrappers, transport, response middleware) only after all of
+   them and the built-in chain succeeded *)
+Theorem C18_request_middleware_in_order_before_send : forall fl cfg a n prev st l,
+  do_attempt fl cfg a n prev = (st, l) ->
+  exists j rest,
+    l = map EvUd (seq 0 j) ++ rest /\ filter is_ud rest = [] /\ (j <= length (a_ud a))%nat /\
+    (rest <> [] -> j = length (a_ud a) /\ Forall (fun m => m = None) (a_ud a) /\ a_bi a = None) /\
+    (forall x, fst (run_before (a_ud a) 0) = Some x ->
+       nth_error (a_ud a) (j - 1) = Some (Some x) /\ Forall (fun m => m = None) (firstn (j - 1) (a_ud a)) /\
+       rest = [] /\ st = Stop prev (Some x)).
+Proof. exact request_middleware_in_order_before_send. Qed.
+Print Assumptions C18_request_middleware_in_order_before_send.
+
+Theorem C18_response_middleware_after_every_attempt : forall fl cfg a n prev st l,
+  do_attempt fl cfg a n prev = (st, l) ->
+  fst (run_before (a_ud a) 0) = None -> a_bi a = None ->
+  (exists k, (k <= length (a_req a))%nat /\ filter is_req l = user_evs EvReq (firstn k (a_req a)) 0 /\
+      (a_req a <> [] -> (1 <= k)%nat) /\
+      (k < length (a_req a) -> exists ro x, st = Stop ro (Some x)))%nat /\
+  (Forall (fun w => match w with WShort _ _ _ => False | _ => True end) (a_wraps a) -> a_getbody a = None ->
+      filter is_cli l = user_evs EvCli (a_cli a) 0 /\ In EvSend l) /\
+  (filter is_cli l = user_evs EvCli (a_cli a) 0 \/ filter is_cli l = []).
+Proof. exact response_middleware_after_every_attempt. Qed.
+Print Assumptions C18_response_middleware_after_every_attempt.
+
+(* the error hook: exactly once for a verb-style call that ends in error, never otherwise *)
+Theorem C18_on_error_exactly_once : forall fl p,
+  hooks_of (run fl p) =
+  match p_entry p with
+  | EDo => 0%nat
+  | _ => if ends_in_error fl p && c_onerror (p_cfg p) then 1%nat else 0%nat
+  end.
+Proof. exact on_error_exactly_once. Qed.
+Print Assumptions C18_on_error_exactly_once.
+
+Theorem C18_ends_in_error_iff : forall fl p,
+  p_entry p <> EDo ->
+  (ends_in_error fl p = true <->
+   match run fl p with
+   | Returned _ e _ _ => e <> None
+   | Panicked _ _ _ => True
+   | OutOfFuel => False
+   end).
+Proof. exact ends_in_error_iff. Qed.
+Print Assumptions C18_ends_in_error_iff.
+
+(* ---- the error the caller sees: the precise precedence, stage by stage ---- *)
+(* request middleware / built-in request chain *)
+Theorem C18_before_error_is_seen : forall fl cfg a rest n prev x,
+  fst (run_before (a_ud a) 0) = Some x \/ (fst (run_before (a_ud a) 0) = None /\ a_bi a = Some x) ->
+  exists r l, do_loop fl cfg (a :: rest) n prev = DoRet (Some r) (Some x) [l] /\
+    r_err r = (match resp_err prev with Some y => Some y | None => Some x end) /\
+    filter is_send l = [] /\ filter is_cli l = [] /\ filter is_req l = [].
+Proof. exact before_error_is_seen. Qed.
+Print Assumptions C18_before_error_is_seen.
+
+(* transport, GetBody, unmarshalling: seen unless a later client-level middleware raises; among
+   client-level middleware the LAST one that raises decides (every one of them runs) *)
+Theorem C18_client_middleware_last_wins : forall fl cfg ms i r, Forall is_user ms ->
+  let r' := fst (run_cli fl cfg ms i r) in
+  r_err r' = last_wins (r_err r) ms /\
+  r_present r' = r_present r /\ r_status r' = r_status r /\ r_chk r' = r_chk r /\
+  r_cached r' = r_cached r /\ r_result r' = r_result r /\ r_error r' = r_error r.
+Proof. exact run_cli_user. Qed.
+Print Assumptions C18_client_middleware_last_wins.
+
+Theorem C18_transport_error_is_seen : forall fl cfg a x, a_getbody a = None -> a_transport a = TFail x ->
+  Forall is_user (a_cli a) ->
+  exists r l, round_trip fl cfg a = (Some r, r_err r, l) /\ r_err r = last_wins (Some x) (a_cli a) /\ r_present r = false.
+Proof. exact transport_error_is_seen. Qed.
+Print Assumptions C18_transport_error_is_seen.
+
+Theorem C18_getbody_error_is_seen : forall fl cfg a x, a_getbody a = Some x ->
+  exists r, round_trip fl cfg a = (Some r, Some x, []) /\ r_err r = Some x.
+Proof. exact getbody_error_is_seen. Qed.
+Print Assumptions C18_getbody_error_is_seen.
+
+Theorem C18_unmarshal_error_is_seen : forall fl cfg a s chk b w x,
+  a_getbody a = None -> a_transport a = TResp s chk b -> Forall is_user (a_cli a) ->
+  b_read b = None ->
+  applicable (c_targets cfg) (mkResp true s chk None false false ENone) = Some w -> um_of b w = Some x ->
+  exists r l, round_trip fl cfg a = (Some r, r_err r, l) /\ r_err r = last_wins (Some x) (a_cli a) /\
+              r_result r = false /\ r_error r = ENone.
+Proof. exact unmarshal_error_is_seen. Qed.
+Print Assumptions C18_unmarshal_error_is_seen.
+
+(* wrapping round-trippers: registration order from the inside out; do() keeps a recorded error
+   over a returned one *)
+Theorem C18_wrapped_result_fold : forall fl cfg a,
+  fst (wrapped_round_trip fl cfg a) = fold_left wrap_step (a_wraps a) (fst (round_trip fl cfg a)).
+Proof. exact wrapped_result_fold. Qed.
+Print Assumptions C18_wrapped_result_fold.
+
+Theorem C18_normalise_err : forall ro e,
+  r_err (normalise ro e) = match resp_err ro with Some y => Some y | None => e end.
+Proof. exact normalise_err. Qed.
+Print Assumptions C18_normalise_err.
+
+(* request-level middleware: assignments accumulate, the FIRST returned error ends the call *)
+Theorem C18_request_level_first_wins : forall fl cfg ms i r, Forall is_user ms ->
+  let '(r2, e, _) := run_req fl cfg ms i r in
+  (r_err r2, e) = req_outcome ms (r_err r) /\
+  r_present r2 = r_present r /\ r_status r2 = r_status r /\ r_result r2 = r_result r /\ r_error r2 = r_error r.
+Proof. exact run_req_user. Qed.
+Print Assumptions C18_request_level_first_wins.
+
+(* never swallowed: an error recorded or returned by the round trip, or returned by a
+   request-level middleware, leaves the caller with resp.Err set *)
+Theorem C18_stage_error_never_swallowed : forall fl cfg a n prev ro e l,
+  do_attempt fl cfg a n prev = (Stop ro e, l) ->
+  fst (run_before (a_ud a) 0) = None -> a_bi a = None ->
+  (let '(ro0, e0, _) := wrapped_round_trip fl cfg a in resp_err ro0 <> None \/ e0 <> None) \/ e <> None ->
+  exists r, fst (do_deferred ro e) = Some r /\ r_err r <> None.
+Proof. exact attempt_error_kept. Qed.
+Print Assumptions C18_stage_error_never_swallowed.
+
+Theorem C18_client_error_sticky : forall fl cfg ms i r, r_err r <> None -> r_err (fst (run_cli fl cfg ms i r)) <> None.
+Proof. exact run_cli_sticky. Qed.
+Print Assumptions C18_client_error_sticky.
+
+(* ---- the pinned code violates the contract; witnesses kept checked ---- *)
+Theorem C18_pinned_digest_refuted :
+  let '(r, _, _) := digest_mw Pinned digest_witness_cfg digest_witness digest_witness_resp in
+  r_status r = 200 /\ result_state r = SuccessState /\ r_result r = false /\ r_error r = EReq.
+Proof. exact digest_pinned_refuted. Qed.
+
+Theorem C18_fixed_digest_rebinds :
+  let '(r, e, _) := digest_mw Fixed digest_witness_cfg digest_witness digest_witness_resp in
+  r_status r = 200 /\ result_state r = SuccessState /\ r_result r = true /\ r_error r = ENone /\ e = None.
+Proof. exact digest_fixed_rebinds. Qed.
+
+Theorem C18_pinned_nil_response_dereferenced :
+  do_first_pinned Fixed retry_cfg nil_wrapper_attempt = PNilDeref.
+Proof. exact do_pinned_nil_deref. Qed.
+
+(* non-vacuity: concrete non-trivial programs *)
+Example C18_nonvacuous :
+  (* 200 + JSON + success target: bound; error hook silent *)
+  run Fixed (mkProg ESend (mkCfg (mkTargets true true true) true true None None)
+    [mkAttempt [None; None] None [WPass] None (TResp 200 None (mkBody None None None None)) [Mw None None] [Mw None None] false])
+  = Returned (Some (mkResp true 200 None None true true ENone)) None
+      [[EvUd 0; EvUd 1; EvWIn 0; EvSend; EvCli 0; EvWOut 0; EvReq 0]] 0 /\
+  (* 500 + ill-formed body + request-level error target: unmarshal error surfaces, hook runs once *)
+  run Fixed (mkProg ESend (mkCfg (mkTargets true true true) true true None None)
+    [mkAttempt [] None [] None (TResp 500 None (mkBody None None (Some (-1)) None)) [] [] false])
+  = Returned (Some (mkResp true 500 None (Some (-1)) true false ENone)) (Some (-1)) [[EvSend]] 1 /\
+  (* a wrapper returning (nil, err) under retry: the repaired loop retries and reports the error *)
+  run Fixed (mkProg ESend retry_cfg [nil_wrapper_attempt; nil_wrapper_attempt]) =
+  Returned (Some (set_err (Some 1) fresh_resp)) (Some 1) [[EvWIn 0; EvWOut 0; EvHook]; [EvWIn 0; EvWOut 0]] 0.
+Proof. vm_compute. repeat split; reflexivity. Qed.
